@@ -254,6 +254,8 @@ func c05Push(c *Ctx, g *gameModel) {
 					if ov != draw || !okReason {
 						bad = fmt.Sprintf("draw condition holds (repetition=%v 5-fold=%v clock>=100=%v material=%v) but result is Outcome=%v Reason=%s [%s]", rep, rep5x, npLimit, mat, vstrOf(out), rs, pp.facts)
 					}
+				case !drawn && hasOut && constNonDraw(out, draw):
+					// the verdict of the position left is cleared: an explicit not-drawn result is no report of a draw
 				case !drawn && hasOut:
 					bad = fmt.Sprintf("no draw condition holds but result is set to Outcome=%v Reason=%s [%s]", vstrOf(out), vstrOf(reason), pp.facts)
 				}
@@ -759,4 +761,10 @@ func c05Dead(c *Ctx, g *gameModel) {
 	sort.Strings(got)
 	want := []string{"all==2", "all==3", "all==4", "bishops==2", "masked!=1", "minors==1"}
 	r.Check(fmt.Sprint(got) == fmt.Sprint(want), "R05-dead", "piece-count case split and thresholds", where, "", fmt.Sprintf("comparisons %v, expected %v", got, want))
+}
+
+// constNonDraw: the outcome written is a compile-time constant other than Draw.
+func constNonDraw(out absint.Value, draw int64) bool {
+	v, ok := absint.ConstInt(out)
+	return ok && v != draw
 }
